@@ -89,6 +89,35 @@ func c06Write(c *Ctx) {
 		c.Distinct(mix(m.Hash(), kindVectorHash(b)))
 	}
 	c.Eval(3)
+	// the SAME object is written again after its layout changed (chunks removed in front, added behind, kinds changed):
+	// whatever a writer keeps between calls must not leak into the next stream
+	for round := 0; round < 3 && !c.Failed(); round++ {
+		for i := 0; i < 1+c.R.Intn(4) && !c.Failed(); i++ {
+			if c.R.Chance(0.3) {
+				algebraStep(c, bm, "write/then-")
+			} else {
+				mutateStep(c, bm, MutOpts{Light: true, NoClone: true, Sig: "write/then-"})
+			}
+		}
+		if c.Failed() {
+			return
+		}
+		var wire2 []byte
+		if c.Guard("ToBytes", func() { wire2, err = bm.B.ToBytes() }) {
+			return
+		}
+		if err != nil {
+			c.Fail("write/ToBytes-error", "ToBytes of the mutated bitmap failed: %v", err)
+			return
+		}
+		ds2, used2, info2, derr2 := specDecode(wire2)
+		c.Eval(1)
+		if derr2 != nil || used2 != len(wire2) || len(info2.Strict) > 0 || !ds2.Equal(bm.M) {
+			c.Fail("write/same-object-written-again", "after mutating the bitmap and writing the same object again the independent decoder sees: err=%v used=%d/%d strict=%v equal=%v", derr2, used2, len(wire2), firstN(info2.Strict, 3), ds2 != nil && ds2.Equal(bm.M))
+			return
+		}
+		c.Count("same_object_written_again")
+	}
 	c.Sample(map[string]any{"unit": "write-direction", "case_seed": c.CaseSeed, "bytes": len(wire), "cookie": info.Cookie, "chunks": info.N, "set": descSet(m)})
 }
 
